@@ -391,9 +391,12 @@ def run(ctx):
         # regression of the zoom defect (fix: 93dd666): levels of 29 rows / 50 columns zoomed by 3 read outside the map
         cases.append(gen_case(rng, {"rows": 87, "cols": 150, "bands": 1, "masks": False, "sf": 3, "n": 2, "ws": 3,
                                     "disp": (-6, 3), "marge": 1, "pre": [], "post": []}))
-        for _ in range(22 if quick else 300):
+        for _ in range(40 if quick else 600):
             cases.append(gen_case(rng))
         if not quick:
+            # a 63-row coarse level zoomed by 3: scipy and the exact formula differ on a tie (output row 47)
+            cases.append(gen_case(rng, {"rows": 189, "cols": 64, "bands": 1, "masks": True, "sf": 3, "n": 2, "ws": 3,
+                                        "disp": (-3, 3), "marge": 1, "pre": [], "post": ["filter"]}))
             cases.append(gen_case(rng, {"rows": 303, "cols": 211, "bands": 1, "masks": True, "sf": 3, "n": 2, "ws": 5,
                                         "disp": (-6, 3), "marge": 1, "pre": ["validation"], "post": []}))
 
